@@ -77,7 +77,8 @@ struct Stats {
   uint64_t switches = 0, lib_preempt = 0, runs_two_preempted = 0, static_checks = 0, static_rebaselined = 0, yields_cb = 0, colocated = 0;
   std::set<uint64_t> keys;                     // distinct-nontrivial measure
   std::map<std::string, uint64_t> by_kind;     // fault executions per operation kind (entry point)
-  uint64_t digest = 0;                         // digest of everything the run's operations returned (+ interleaving log for C14)
+  uint64_t digest = 0;                         // digest of everything the run's operations returned (results only: what the process-history probe compares)
+  uint64_t sched_digest = 0;                   // C14: digest of the interleaving (task, edges run, reason per segment); step counts legitimately differ when a case pays for a one-time initialisation
 };
 
 static uint64_t env_twin(uint64_t env) { uint64_t e = env * 0x9E3779B97F4A7C15ull + 7; if ((e & 7) == (env & 7)) e ^= 1; return e | 8; }
@@ -179,6 +180,14 @@ static bool case_c10(const Plan& pl, Stats& st, Violation& v, bool enumerate) {
   RunCtl c2 = ctl; c2.env = env_twin(pl.env);
   RunOut b; exec_seq(pl, c2, b); ++st.evals; ++st.twin_runs; st.steps += b.steps;
   std::string d = cmp_runs(a, b, true);
+  if (!d.empty() && cmp_runs(a, b, false).empty()) {
+    // same results, other allocation / step counts: either the first execution paid for a one-time initialisation inside the
+    // library (a lazily built constant table - legitimate), or the counts depend on addresses / garbage. A third execution
+    // under the first key, now warm, decides: it must agree with the twin in every count.
+    RunOut a2; exec_seq(pl, ctl, a2); ++st.evals; st.steps += a2.steps;
+    d = cmp_runs(a2, b, true);
+    if (d.empty()) a = std::move(a2);
+  }
   if (!d.empty()) { Plan p2 = pl; p2.note = "twin env " + std::to_string(c2.env); return fail("nondeterministic", "two executions that differ only in heap addresses and in the garbage that fresh memory contains disagree: " + d, p2); }
   // all nothrow requests fail (std::stable_sort falls back to its in-place path): same results
   if (a.nt_allocs > 0 && g_max_phase >= 3) {
@@ -401,7 +410,7 @@ static bool case_c14(const Plan& pl0, Stats& st, Violation& v) {
     if (getenv("SIM_DUMP_OPS")) for (size_t k = 0; k < nlog; ++k) fprintf(stderr, "SEGLOG rep=%d k=%zu task=%d ran=%" PRIu64 " at=%u why=%d\n", rep, k, log[k].task, log[k].ran, log[k].at_guard, log[k].why);
     if (sr.tasks_preempted_in_lib >= 2 && rep == 0) { ++st.runs_two_preempted; st.keys.insert(h); }
     if (!have_ref) run_ref();
-    if (rep == 0) st.digest = run_digest(ref) ^ (hd * 0x9E3779B97F4A7C15ull);
+    if (rep == 0) { st.digest = run_digest(ref); st.sched_digest = hd; }
     // explicit schedule for the replay file
     Plan exp = pl; if (!cc.explicit_sched) { exp.sched = cc.taken; }
     if (ft.op >= 0) { exp.faults.clear(); exp.faults.push_back(pl.faults[0]); }
@@ -628,7 +637,7 @@ int main(int argc, char** argv) {
         v.plan.expect = v.cls; write_file(pf, plan_to_text(v.plan)); write_file(pf + ".detail", v.detail + "\n");
         printf("VIOL %" PRIu64 " class=%s file=%s sig=%s\n", r, v.cls.c_str(), pf.c_str(), v.sig.c_str());
       }
-      printf("END %" PRIu64 " dig=%016" PRIx64 " evals=%" PRIu64 " steps=%" PRIu64 " faults=%" PRIu64 " keys=%zu\n", r, one.digest, one.evals, one.steps, one.fault_runs, one.keys.size()); fflush(stdout);
+      printf("END %" PRIu64 " dig=%016" PRIx64 " sd=%016" PRIx64 " evals=%" PRIu64 " steps=%" PRIu64 " faults=%" PRIu64 " keys=%zu\n", r, one.digest, one.sched_digest, one.evals, one.steps, one.fault_runs, one.keys.size()); fflush(stdout);
       if (nviol >= 400) break;
     }
     // dump coverage and keys for the evidence file
